@@ -124,6 +124,7 @@ oracle.keeps_object = True
 
 
 def run_case(case):
+    e2models.EXTRA_COORDS[:] = [2.0 ** -15]
     v = e2models.replay_history(case["n"], case["npt"], case["hist"], oracle)
     for x in v:
         x["case"] = case
@@ -143,6 +144,7 @@ class CountingClient(e2models.ModelsClient):
 
 def execute(tier, seed, limit=0):
     agg = common.Agg()
+    e2models.EXTRA_COORDS[:] = [2.0 ** -15]
     if tier == "quick":
         depth_full, depth_thin, configs, cap = {1: 3, 2: 1}, 0, c12.CONFIGS_Q, 240
     else:
